@@ -33,6 +33,7 @@ var All = map[string]func(*Ctx){
 			issuers[s.Fn] = true
 		}
 		c.loopVarCapture("C01.loop-capture", func(f *ssa.Function) bool { return issuers[f] })
+		c.registerSessionPID("C01.register-pid")
 	}, withExplanation(C05)),
 	"C02": seq(C02, (*Ctx).c12Recovery, (*Ctx).c12SMS, (*Ctx).c01Pending, (*Ctx).c01Hijack, func(c *Ctx) {
 		c.beforeHandlersIssueNothing("C02.before-no-issue")
@@ -74,6 +75,7 @@ var All = map[string]func(*Ctx){
 		c.supersededOnEveryRequest("C05.supersede-always")
 		c.compareWhole("C05.compare-whole", inPkgs("ab/confirm", "ab/recover"))
 		c.configVerbatim("C05.config-verbatim", "RecoverTokenDuration")
+		c.expiryWriters("C05.expiry-writers")
 	}),
 	"C06": seq(C06, func(c *Ctx) { c.ctxUserFirst("C06.subject") }, withExplanation(C07)),
 	"C07": seq(C07, func(c *Ctx) {
@@ -88,6 +90,7 @@ var All = map[string]func(*Ctx){
 		c.halfAuthUpgradeGated("C07.halfauth-upgrade")
 		c.afterHandlersUnconditional("C07.after-unconditional")
 		c.perInstanceWiring("C07.per-instance")
+		c.cookieReaderTotal("C07.reader-total")
 	}, borrow(C11, "C11.family", "C07.cookie-loaded", func(o Obligation) bool {
 		// the remember cookie reaches the middleware only if the request's cookie state was loaded
 		return o.Rule == "C11.family" && strings.Contains(o.Func, "LoadClientState") && strings.Contains(o.Key, "ReadState(")
@@ -109,11 +112,13 @@ var All = map[string]func(*Ctx){
 		c.afterHandlersUnconditional("C09.after-unconditional")
 		c.delAllQueued("C09.delall-queued")
 		c.configVerbatim("C09.config-verbatim", "ExpireAfter")
+		c.stampSurvives("C09.stamp-survives")
 	}, borrow(C10, "C10.delall-contract", "C09.delall-contract", func(o Obligation) bool { return o.Rule == "C10.delall-contract" })),
 	"C10": seq(C10, (*Ctx).flushDiscipline, func(c *Ctx) {
 		c.delAllQueued("C10.delall-queued")
 		c.redirectorWrites("C10.answer-written")
 		c.zeroValueInvoke("C10.zero-value", func(f *ssa.Function) bool { return pkgOf(f) == "ab/logout" })
+		c.logoutHooksInfallible("C10.hooks-infallible")
 	}, borrow(func(c *Ctx) { c.nilResultUse("C18.nil-result") }, "C18.nil-result", "C10.nil-result", func(o Obligation) bool {
 		// logout does its work whoever (if anybody) the session names
 		return o.Rule == "C18.nil-result" && strings.Contains(o.Func, "ab/logout.")
@@ -195,9 +200,11 @@ var All = map[string]func(*Ctx){
 		c.nilResultUse("C18.nil-result")
 		c.noCredentialRestore("C18.no-restore")
 		c.deferredStorageError("C18.defer-err")
+		c.middlewareFailClosed("C18.mw-fail-closed")
 	}, borrow(C05, "C05.supersede", "C18.mail-after-save", func(o Obligation) bool { return o.Rule == "C05.supersede" })),
 	"C19": seq(C19, (*Ctx).hasherPassThrough, func(c *Ctx) {
 		c.confirmPairChecked("C19.confirm-pair")
+		c.registerAfterCreated("C19.after-created")
 	}),
 	"C20": seq(C20, func(c *Ctx) {
 		c.moduleCopied("C20.instance")
